@@ -111,7 +111,7 @@ pub fn hdr_fields(quick: bool) -> Vec<GzFields> {
                         if quick && bi != (e.unwrap_or(0) + n.unwrap_or(1) + c.unwrap_or(2)) % 3 {
                             continue;
                         }
-                        v.push(GzFields { text, mtime, xfl: 0, os, extra: field(e, 5, false), name: field(n, 6, true), comment: field(c, 7, true), hcrc });
+                        v.push(GzFields { text, mtime, xfl: 0, os, extra: field(e, 5, false), name: field(n, 6, true), comment: field(c, 7, true), hcrc, hcrc_val: 0 });
                     }
                 }
             }
@@ -152,7 +152,7 @@ pub fn hdr_rows(quick: bool) -> Vec<HdrRow> {
     let name_range: Vec<usize> = if quick { (488..=530).collect() } else { (470..=560).collect() };
     for nl in name_range {
         for cl in [None, Some(3usize)] {
-            let gz = GzFields { text: false, mtime: 7, xfl: 0, os: 3, extra: None, name: field(Some(nl), 6, true), comment: field(cl, 7, true), hcrc: true };
+            let gz = GzFields { text: false, mtime: 7, xfl: 0, os: 3, extra: None, name: field(Some(nl), 6, true), comment: field(cl, 7, true), hcrc: true, hcrc_val: if nl % 3 == 0 { -1 } else { 0 } };
             for room in [1usize, 2, 3, 5, 7, 100, 509, 510, 511] {
                 let cfg = DCfg { level: 6, strategy: 0, wbits: 15, mem_level: 1, wrap: Wrap::Gzip };
                 rows.push(HdrRow { cfg, gz: gz.clone(), sched: DSched { steps: vec![], tail_room: room } });
